@@ -41,8 +41,8 @@ theorem contig_localBytes {e : Entry} (hg : e.gapBefore = []) (hd : e.hasDesc = 
 theorem streamView_csize (e : Entry) (hf : e.Fits) :
     (streamViewEntry e).compressedSize.toNat = e.data.length := u64_ofNat_toNat hf.2.2.2.2.1
 
-/-- header, then the whole `Take` (whatever the consumer did with the decoded bytes, the drain on drop
-reads the rest of the `Take`): the device ends `compressed size` bytes behind the data start. -/
+/-- header, then the whole `Take` read in one go (the read-everything consumer): the device ends
+`compressed size` bytes behind the data start. -/
 theorem runs_streamEntryG (G : FileData → Bytes → Out Bytes) (e : Entry) (hf : e.Fits) (hs : LocalSizesOk e)
     {B rest : Bytes} {p : Nat} (hb : B.drop p = localRecord e ++ (e.data ++ rest)) :
     Runs (streamHeader >>= fun h => match h with
@@ -56,12 +56,89 @@ theorem runs_streamEntryG (G : FileData → Bytes → Out Bytes) (e : Entry) (hf
   refine Runs.bind (runs_takeAll (drop_past hb)) ?_
   exact Runs.pure _
 
-theorem runs_streamEntryC (ext : Ext) (k : Nat) (e : Entry) (hf : e.Fits) (hs : LocalSizesOk e)
+theorem Runs.getDev_bind_pos {β : Type} {B : Bytes} {p q : Nat} {f : Dev → M β} {o : Out β}
+    (h : ∀ d : Dev, d.buf = B → d.pos = p → Runs (f d) B p o q) : Runs (M.getDev >>= f) B p o q := by
+  intro d hb hp
+  obtain ⟨d1, e1, hb1, hp1⟩ := h d hb hp d hb hp
+  exact ⟨d1, by rw [M.runPure_bind]; exact e1, hb1, hp1⟩
+
+/-- **The reads on a `Take`** (`takeLoop`: the consumer's pulls, and the drain of `ZipFile::drop`) on a
+device that still holds `want` bytes: no error, `n ≤ want` bytes delivered, the device `n` bytes further;
+and ALL `want` bytes when the buffer is not empty and the fuel is the one the model uses. -/
+theorem runs_takeLoop {B : Bytes} (chunk : Nat) : ∀ (fuel want p : Nat), want ≤ B.length - p →
+    ∃ n, n ≤ want ∧ Runs (takeLoop chunk fuel want) B p (.ok (n, none)) (p + n) ∧
+      (0 < chunk → want ≤ fuel → n = want) := by
+  intro fuel
+  induction fuel with
+  | zero =>
+    intro want p _
+    exact ⟨0, Nat.zero_le _, by unfold takeLoop; exact Runs.pure _, fun _ h => by omega⟩
+  | succ f ih =>
+    intro want p hw
+    unfold takeLoop
+    by_cases h0 : want = 0
+    · rw [if_pos h0]; exact ⟨0, Nat.zero_le _, Runs.pure _, fun _ _ => h0.symm⟩
+    · rw [if_neg h0]
+      have hlen : ((B.drop p).take (min want chunk)).length = min want chunk := by
+        rw [List.length_take, List.length_drop]; omega
+      have hread : Runs (M.attempt (M.read (min want chunk))) B p
+          (.ok (.ok ((B.drop p).take (min want chunk)))) (p + min want chunk) :=
+        Runs.attempt_ok ((Runs.read _).cast rfl (by rw [hlen]))
+      by_cases hc : min want chunk = 0
+      · refine ⟨0, Nat.zero_le _, ?_, fun hpos _ => by omega⟩
+        refine Runs.bind hread ?_
+        dsimp only
+        rw [if_pos (by rw [hlen]; exact hc)]
+        exact (Runs.pure _).cast rfl (by omega)
+      · obtain ⟨n, hn, hr, hfull⟩ := ih (want - min want chunk) (p + min want chunk) (by omega)
+        refine ⟨min want chunk + n, by omega, ?_, fun hpos hfu => ?_⟩
+        · refine Runs.bind hread ?_
+          dsimp only
+          rw [if_neg (by rw [hlen]; exact hc), hlen]
+          refine Runs.bind hr ?_
+          exact (Runs.pure _).cast rfl (by omega)
+        · have := hfull hpos (by omega); omega
+
+/-- the drain leaves the device behind everything that was left of the `Take` -/
+theorem runs_drain {B : Bytes} (rem p : Nat) (h : rem ≤ B.length - p) :
+    Runs (drain rem) B p (.ok ()) (p + rem) := by
+  obtain ⟨n, _, hr, hfull⟩ := runs_takeLoop (B := B) 65536 rem rem p h
+  have hn : n = rem := hfull (by decide) (Nat.le_refl _)
+  subst hn
+  unfold drain
+  refine Runs.bind hr ?_
+  exact Runs.pure _
+
+theorem drop_room {B x rest : Bytes} {p : Nat} (h : B.drop p = x ++ rest) : x.length ≤ B.length - p := by
+  have := congrArg List.length h
+  rw [List.length_drop, List.length_append] at this
+  omega
+
+/-- **One entry under any consumer**: whatever number of compressed bytes the consumer's reads pull through
+the `Take` (`c.pulled`, in reads of any size `c.chunk`) — decoder read-ahead, a consumer that stops early, one
+that never reads — the drain of `ZipFile::drop` reads what is left, and the device ends `compressed size`
+bytes behind the data start. -/
+theorem runs_streamEntryC (ext : Ext) (c : Consume) (e : Entry) (hf : e.Fits) (hs : LocalSizesOk e)
     {B rest : Bytes} {p : Nat} (hb : B.drop p = localRecord e ++ (e.data ++ rest)) :
-    Runs (streamEntryC ext k) B p
-      (.ok (some (streamViewEntry e, consumeK e.crc (ext.decode (Method.fromU16 e.method) e.data) k)))
-      (p + (localRecord e).length + e.data.length) :=
-  runs_streamEntryG (fun f raw => consumeK f.crc32 (ext.decode f.method raw) k) e hf hs hb
+    Runs (streamEntryC ext c) B p
+      (.ok (some (streamViewEntry e, ext.consume (streamViewEntry e) e.data c.k)))
+      (p + (localRecord e).length + e.data.length) := by
+  have hb2 : B.drop (p + (localRecord e).length) = e.data ++ rest := drop_past hb
+  have hroom := drop_room hb2
+  unfold streamEntryC
+  refine Runs.bind ((parses_streamHeader e p hf hs).toRuns hb) ?_
+  dsimp only
+  rw [streamView_csize e hf]
+  refine Runs.getDev_bind_pos (fun d hdb hdp => ?_)
+  have hraw : (d.buf.drop d.pos).take e.data.length = e.data := by
+    rw [hdb, hdp, hb2]; simp
+  rw [hraw]
+  obtain ⟨n, hn, hr, _⟩ := runs_takeLoop (B := B) c.chunk (min c.pulled e.data.length)
+    (min c.pulled e.data.length) (p + (localRecord e).length) (by omega)
+  refine Runs.bind hr ?_
+  dsimp only
+  refine Runs.bind (runs_drain (B := B) (e.data.length - n) _ (by omega)) ?_
+  exact (Runs.pure _).cast rfl (by omega)
 
 theorem runs_streamEntry (ext : Ext) (e : Entry) (hf : e.Fits) (hs : LocalSizesOk e)
     {B rest : Bytes} {p : Nat} (hb : B.drop p = localRecord e ++ (e.data ++ rest)) :
@@ -78,7 +155,7 @@ theorem runs_streamHeader_central {B rest : Bytes} {p : Nat} (hb : B.drop p = le
   rw [if_pos (by decide)]
   exact Runs.pure _
 
-theorem runs_streamEntryC_central (ext : Ext) (k : Nat) {B rest : Bytes} {p : Nat}
+theorem runs_streamEntryC_central (ext : Ext) (k : Consume) {B rest : Bytes} {p : Nat}
     (hb : B.drop p = le32 sigCentral ++ rest) : Runs (streamEntryC ext k) B p (.ok none) (p + 4) := by
   unfold streamEntryC
   refine Runs.bind (runs_streamHeader_central hb) ?_
@@ -90,7 +167,7 @@ theorem runs_streamEntry_central (ext : Ext) {B rest : Bytes} {p : Nat}
   refine Runs.bind (runs_streamHeader_central hb) ?_
   exact Runs.pure _
 
-theorem runs_streamEntryC_refuses (ext : Ext) (k : Nat) (e : Entry) (hf : e.Fits) (hx : ExtraOk e.localExtra)
+theorem runs_streamEntryC_refuses (ext : Ext) (k : Consume) (e : Entry) (hf : e.Fits) (hx : ExtraOk e.localExtra)
     (hr : StreamRefused e) {B rest : Bytes} {p : Nat} (hb : B.drop p = localRecord e ++ rest) :
     Runs (streamEntryC ext k) B p (.err .unsupportedArchive) (p + (localRecord e).length) := by
   unfold streamEntryC
@@ -104,23 +181,21 @@ theorem runs_streamEntry_refuses (ext : Ext) (e : Entry) (hf : e.Fits) (hx : Ext
 
 /-! ### the entry loops -/
 
-/-- the `i`-th element of the cycled consumption pattern (0 for the empty pattern) -/
-def patAt (c : List Nat) (i : Nat) : Nat :=
-  match c[i % c.length]? with
-  | some k => k
-  | none => 0
+/-- the `i`-th element of the cycled consumption pattern (nothing consumed for the empty pattern) -/
+abbrev patAt (c : List Consume) (i : Nat) : Consume := Consume.at c i
 
 /-- what the consumer of entry `e` sees when it reads `k` decoded bytes and drops the handle -/
 def streamSeen (ext : Ext) (e : Entry) (k : Nat) : Out Bytes :=
-  consumeK e.crc (ext.decode (Method.fromU16 e.method) e.data) k
+  consumeK e.crc (ext.decode (Method.fromU16 e.method) e.data)
+    (ext.decodeBefore (Method.fromU16 e.method) e.data k) k
 
 /-- what the consumer sees when it reads the entry to end-of-file -/
 def streamSeenAll (ext : Ext) (e : Entry) : Out Bytes :=
   ext.decode (Method.fromU16 e.method) e.data >>= fun dec => crcCheck false e.crc dec
 
-def streamResultsC (ext : Ext) (c : List Nat) : Nat → List Entry → List (FileData × Out Bytes)
+def streamResultsC (ext : Ext) (c : List Consume) : Nat → List Entry → List (FileData × Out Bytes)
   | _, [] => []
-  | i, e :: es => (streamViewEntry e, streamSeen ext e (patAt c i)) :: streamResultsC ext c (i + 1) es
+  | i, e :: es => (streamViewEntry e, streamSeen ext e (patAt c i).k) :: streamResultsC ext c (i + 1) es
 
 def streamResults (ext : Ext) (es : List Entry) : List (FileData × Out Bytes) :=
   es.map fun e => (streamViewEntry e, streamSeenAll ext e)
@@ -134,7 +209,7 @@ theorem mapOut_nil_append {α : Type} (o : Out (List α)) : mapOut (fun r => ([]
 
 /-- The entry loop over a contiguous run `es` of servable entries: their results, in order, followed by
 whatever the loop does behind them. -/
-theorem runs_streamEntriesC_prefix (ext : Ext) (c : List Nat) {B : Bytes} :
+theorem runs_streamEntriesC_prefix (ext : Ext) (c : List Consume) {B : Bytes} :
     ∀ (es : List Entry) (p i fuel : Nat) (rest : Bytes) (o : Out (List (FileData × Out Bytes))) (q : Nat),
     (∀ e ∈ es, e.Fits ∧ LocalSizesOk e ∧ e.gapBefore = []) →
     B.drop p = localsBytes es ++ rest →
@@ -200,7 +275,7 @@ theorem runs_streamEntries_prefix (ext : Ext) {B : Bytes} :
     refine (Runs.bind_map hrest).cast ?_ rfl
     exact mapOut_cons_append _ _ _
 
-theorem runs_streamEntriesC_end (ext : Ext) (c : List Nat) {B rest : Bytes} {p : Nat} (fuel i : Nat)
+theorem runs_streamEntriesC_end (ext : Ext) (c : List Consume) {B rest : Bytes} {p : Nat} (fuel i : Nat)
     (hb : B.drop p = le32 sigCentral ++ rest) :
     Runs (streamEntriesC ext c (fuel + 1) i) B p (.ok []) (p + 4) := by
   unfold streamEntriesC
@@ -214,7 +289,7 @@ theorem runs_streamEntries_end (ext : Ext) {B rest : Bytes} {p : Nat} (fuel : Na
   refine Runs.bind (runs_streamEntry_central ext hb) ?_
   exact Runs.pure _
 
-theorem runs_streamEntriesC_refuses (ext : Ext) (c : List Nat) (e : Entry) (hf : e.Fits)
+theorem runs_streamEntriesC_refuses (ext : Ext) (c : List Consume) (e : Entry) (hf : e.Fits)
     (hx : ExtraOk e.localExtra) (hr : StreamRefused e) {B rest : Bytes} {p : Nat} (fuel i : Nat)
     (hb : B.drop p = localRecord e ++ rest) :
     Runs (streamEntriesC ext c (fuel + 1) i) B p (.err .unsupportedArchive) (p + (localRecord e).length) := by
@@ -356,7 +431,7 @@ theorem fuel_split (l : Layout) :
   exact ⟨(build l).length / 30 - l.entries.length, by omega⟩
 
 /-- **The entry loop under a consumption pattern on a contiguous layout.** -/
-theorem runs_streamEntriesC_build (ext : Ext) (c : List Nat) (l : Layout) (hF : l.Fits)
+theorem runs_streamEntriesC_build (ext : Ext) (c : List Consume) (l : Layout) (hF : l.Fits)
     (hp : l.pre = []) (hg : l.gapBeforeCd = [])
     (hall : ∀ e ∈ l.entries, LocalSizesOk e ∧ e.gapBefore = []) (hne : l.entries ≠ []) :
     Runs (streamEntriesC ext c ((build l).length / 30 + 1) 0) (build l) 0
@@ -468,7 +543,7 @@ theorem fuel_split' (l : Layout) (es1 es2 : List Entry) (e : Entry) (hes : l.ent
   refine ⟨f + 1 + es2.length, ?_⟩
   rw [hf, hes]; simp only [List.length_append, List.length_cons]; omega
 
-theorem runs_streamEntriesC_build_refuses (ext : Ext) (c : List Nat) (l : Layout) (hF : l.Fits)
+theorem runs_streamEntriesC_build_refuses (ext : Ext) (c : List Consume) (l : Layout) (hF : l.Fits)
     (hp : l.pre = []) (es1 es2 : List Entry) (e : Entry) (hes : l.entries = es1 ++ e :: es2)
     (h1 : ∀ x ∈ es1, LocalSizesOk x ∧ x.gapBefore = []) (hg : e.gapBefore = [])
     (hx : ExtraOk e.localExtra) (hr : StreamRefused e) :
@@ -518,16 +593,16 @@ theorem runs_streamVisit_build_refuses (ext : Ext) (l : Layout) (hF : l.Fits)
 
 /-! ### results, entry by entry -/
 
-theorem streamResultsC_length (ext : Ext) (c : List Nat) : ∀ (es : List Entry) (i : Nat),
+theorem streamResultsC_length (ext : Ext) (c : List Consume) : ∀ (es : List Entry) (i : Nat),
     (streamResultsC ext c i es).length = es.length := by
   intro es
   induction es with
   | nil => intro _; rfl
   | cons e es ih => intro i; simp [streamResultsC, ih]
 
-theorem streamResultsC_getElem (ext : Ext) (c : List Nat) : ∀ (es : List Entry) (i j : Nat) (e : Entry),
+theorem streamResultsC_getElem (ext : Ext) (c : List Consume) : ∀ (es : List Entry) (i j : Nat) (e : Entry),
     es[j]? = some e →
-    (streamResultsC ext c i es)[j]? = some (streamViewEntry e, streamSeen ext e (patAt c (i + j))) := by
+    (streamResultsC ext c i es)[j]? = some (streamViewEntry e, streamSeen ext e (patAt c (i + j)).k) := by
   intro es
   induction es with
   | nil => intro _ j e h; simp at h
@@ -542,7 +617,7 @@ theorem streamResultsC_getElem (ext : Ext) (c : List Nat) : ∀ (es : List Entry
       rw [e1] at this
       simp only [streamResultsC, List.getElem?_cons_succ, this]
 
-theorem streamResultsC_fst (ext : Ext) (c : List Nat) : ∀ (es : List Entry) (i : Nat),
+theorem streamResultsC_fst (ext : Ext) (c : List Consume) : ∀ (es : List Entry) (i : Nat),
     (streamResultsC ext c i es).map Prod.fst = es.map streamViewEntry := by
   intro es
   induction es with
@@ -553,22 +628,30 @@ theorem streamResults_getElem (ext : Ext) (es : List Entry) (j : Nat) (e : Entry
     (streamResults ext es)[j]? = some (streamViewEntry e, streamSeenAll ext e) := by
   simp [streamResults, h]
 
-/-- reading past the last decoded byte (that is: until the read that reports end-of-file) -/
-theorem streamSeen_eof (ext : Ext) (e : Entry) (k : Nat)
-    (hk : ∀ dec, ext.decode (Method.fromU16 e.method) e.data = .ok dec → dec.length < k) :
+/-- "`k` is beyond what the decoder delivers for entry `e`": more than the decoded length when the stream
+decodes, more than what comes out before the error when it is damaged -/
+def Beyond (ext : Ext) (e : Entry) (k : Nat) : Prop :=
+  (∀ dec, ext.decode (Method.fromU16 e.method) e.data = .ok dec → dec.length < k) ∧
+  (∀ x, ext.decode (Method.fromU16 e.method) e.data = .err x →
+    (ext.decodeBefore (Method.fromU16 e.method) e.data k).length < k)
+
+/-- reading past the last delivered byte (that is: until the read that reports end-of-file or the error) -/
+theorem streamSeen_eof (ext : Ext) (e : Entry) (k : Nat) (hk : Beyond ext e k) :
     streamSeen ext e k = streamSeenAll ext e := by
   unfold streamSeen streamSeenAll consumeK
   cases h : ext.decode (Method.fromU16 e.method) e.data with
   | ok dec =>
-    have := hk dec h
+    have := hk.1 dec h
     dsimp only
     rw [if_neg (Nat.not_le.mpr this)]; rfl
-  | err x => rfl
+  | err x =>
+    have := hk.2 x h
+    dsimp only
+    rw [if_neg (Nat.not_le.mpr this)]; rfl
   | panic s => rfl
 
-theorem streamResultsC_all (ext : Ext) (c : List Nat) : ∀ (es : List Entry) (i : Nat),
-    (∀ j e, es[j]? = some e → ∀ dec, ext.decode (Method.fromU16 e.method) e.data = .ok dec →
-      dec.length < patAt c (i + j)) →
+theorem streamResultsC_all (ext : Ext) (c : List Consume) : ∀ (es : List Entry) (i : Nat),
+    (∀ j e, es[j]? = some e → Beyond ext e (patAt c (i + j)).k) →
     streamResultsC ext c i es = streamResults ext es := by
   intro es
   induction es with
@@ -576,11 +659,11 @@ theorem streamResultsC_all (ext : Ext) (c : List Nat) : ∀ (es : List Entry) (i
   | cons e es ih =>
     intro i h
     have h0 := h 0 e rfl
-    have hrest := ih (i + 1) (fun j x hx dec hd => by
-      have := h (j + 1) x (by simpa using hx) dec hd
+    have hrest := ih (i + 1) (fun j x hx => by
+      have := h (j + 1) x (by simpa using hx)
       have e1 : i + (j + 1) = i + 1 + j := by omega
       rwa [e1] at this)
-    show (streamViewEntry e, streamSeen ext e (patAt c i)) :: streamResultsC ext c (i + 1) es = _
+    show (streamViewEntry e, streamSeen ext e (patAt c i).k) :: streamResultsC ext c (i + 1) es = _
     rw [hrest, streamSeen_eof ext e _ (by simpa using h0)]
     rfl
 
